@@ -277,6 +277,7 @@ func checkC02(c *Ctx) Meta {
 	c.pushAlias("C14-", "C02-LOCK-")
 	checkC14(c)
 	c.popAlias()
+	checkRemarkCleared(c, "C02-PAIR")
 	c.Rule("C02-PUBLIVE", "the public hierarchy stays usable for the life of the keystore object: the fields the loader fills once and nothing re-derives (cryptoKeyPub, masterKeyPub, the account and branch public keys) are never zeroed — every address persisted afterwards would be sealed under an all-zero key and the store could not be reopened", 1)
 	c02PubLive(c)
 	// the memory side gets the NEW value
@@ -996,5 +997,29 @@ func c02PubLive(c *Ctx) {
 		c.Bad(rule, "public-hierarchy-never-zeroed", "", "reason=anchor-missing: no use of the public-hierarchy fields found")
 	} else {
 		c.OK(rule, "public-hierarchy-never-zeroed", "", fmt.Sprintf("%d loads of cryptoKeyPub/masterKeyPub/acctKeyPub/branch public keys, none flows into Zero()", n))
+	}
+}
+
+// checkRemarkCleared: clearing a remark clears it in the store too: the transaction of ChangeRemark can
+// delete the stored remark (a Delete of the remark key is reachable from it). A "store remark" helper
+// shared with create/import that simply skips empty remarks leaves the old remark in the store: the
+// running instance shows "" while export and the reopened wallet show the old text.
+func checkRemarkCleared(c *Ctx, rule string) {
+	op := c.MustFn(rule, "poc/wallet/keystore", "(*KeystoreManagerForPoC).ChangeRemark")
+	if op == nil {
+		return
+	}
+	key := "ChangeRemark:empty-remark-deletes-the-stored-one"
+	kd := map[string]bool{}
+	guardedPutKeys(c, op, nil, bucketDelMethods, 0, kd)
+	kw := map[string]bool{}
+	guardedPutKeys(c, op, nil, bucketPutMethods, 0, kw)
+	switch {
+	case !kw["remarkName"]:
+		c.Bad(rule, key, c.Pos(op.Pos()), "reason=anchor-missing: ChangeRemark no longer writes the remark key")
+	case !kd["remarkName"]:
+		c.Bad(rule, key, c.Pos(op.Pos()), "ChangeRemark never deletes the stored remark: after the remark is cleared (empty string) the running instance shows no remark while the store — and so export and the reopened wallet — keep the old one")
+	default:
+		c.OK(rule, key, c.Pos(op.Pos()), "the transaction of ChangeRemark can both put and delete the remark key")
 	}
 }
